@@ -93,6 +93,10 @@ func init() {
 		o := newOracleRun("C19", seed)
 		for _, cs := range caseSeeds(seed, n, "C19") {
 			r := rand.New(rand.NewSource(cs))
+			if r.Intn(10) == 0 {
+				c19NullInMetadata(o, r, cs)
+				continue
+			}
 			f := allFeat()
 			f.Dense = r.Intn(2) == 0
 			t := genTree(r, f)
@@ -261,3 +265,37 @@ func stripJP(out string) string {
 }
 
 func indentOf(l string) int { return len(l) - len(strings.TrimLeft(l, " ")) }
+
+// c19NullInMetadata: a strategic-merge patch that sets a label / annotation to null (the merge rule: null deletes the key), or to
+// a number-like string, listed under `patchesStrategicMerge` and under `patches`: both spellings build to the same output.
+func c19NullInMetadata(o *oracleRun, r *rand.Rand, cs int64) {
+	val := pickS(r, []string{"null", "null", "~", "\"123\"", "\"true\""})
+	where := pickS(r, []string{"labels", "annotations"})
+	patch := "apiVersion: v1\nkind: ConfigMap\nmetadata:\n  name: cm\n  " + where + ":\n    foo: " + val + "\n"
+	res := "apiVersion: v1\nkind: ConfigMap\nmetadata:\n  name: cm\n  labels:\n    foo: bar\n    x: y\n  annotations:\n    foo: v\n    z: w\ndata:\n  k: v\n"
+	build := func(field string) (string, error) {
+		fs := filesys.MakeFsInMemory()
+		fs.WriteFile("/w/r.yaml", []byte(res))
+		fs.WriteFile("/w/p.yaml", []byte(patch))
+		fs.WriteFile("/w/kustomization.yaml", []byte("resources:\n- r.yaml\n"+field))
+		out, err, _ := safeBuild(func() (string, error) { return runBuild(fs, "/w", nil) })
+		return out, err
+	}
+	inline := r.Intn(2) == 0
+	dep, cur := "patchesStrategicMerge:\n- p.yaml\n", "patches:\n- path: p.yaml\n"
+	if inline {
+		ind := "    " + strings.ReplaceAll(strings.TrimSuffix(patch, "\n"), "\n", "\n    ") + "\n"
+		dep, cur = "patchesStrategicMerge:\n- |-\n"+ind, "patches:\n- patch: |-\n"+ind
+	}
+	a, e1 := build(dep)
+	b, e2 := build(cur)
+	in := map[string]interface{}{"scenario": "null-in-metadata", "patch": patch, "resource": res, "deprecated": dep, "current": cur}
+	o.note(fmt.Sprintf("null-in-metadata-%v-%v", e1 == nil, e2 == nil), in)
+	if (e1 == nil) != (e2 == nil) {
+		o.fail("deprecated-spelling-fails", fmt.Sprintf("one spelling builds, the other fails: %v / %v", e1, e2), cs, in, nil, nil)
+		return
+	}
+	if e1 == nil && a != b {
+		o.fail("metadata-value-stringified-under-patchesStrategicMerge", "the same strategic-merge patch gives another output under `patchesStrategicMerge` than under `patches`", cs, in, firstDiff(b, a), nil)
+	}
+}
